@@ -9,6 +9,7 @@ import (
 	"time"
 
 	"verif/sim/enga"
+	"verif/sim/engb"
 	"verif/sim/kernel"
 )
 
@@ -21,6 +22,7 @@ var engines = map[string]engine{
 	"A": {gen: enga.Gen, exec: func(_ *testing.T, p *kernel.Plan, k map[string]bool, v bool) *kernel.Result {
 		return enga.Execute(p, k, v)
 	}},
+	"B": {gen: engb.Gen, exec: engb.Execute},
 }
 
 func TestWorker(t *testing.T) {
